@@ -231,6 +231,7 @@ def observe(impl: Impl, k: int, args: list[list[int]]):
     if k == 32: return lex('NULL')
     if k == 33: return res(lambda: M.Currency._parse_value(s0), lambda r: [L(r)])
     if k == 34: return [L(M.Account._format_value(s0))]
+    if k == 35: return [L(str(payload_val('Number', a0)))]      # CPython's str(Decimal) vs number_format_str
     if k == 40: return observe_history(impl, args)
     raise ValueError(k)
 
@@ -338,16 +339,18 @@ def gen_digits(rng, n) -> list[int]:
 
 
 def gen_number(rng, in_domain=True) -> decimal.Decimal:
+    """in_domain: any finite non-negative Decimal (large/small exponents, trailing zeros, zero with exponent)."""
     n = rng.choice([1, 1, 2, 3, 4, 7, 12, 30])
     ds = gen_digits(rng, n)
-    if rng.random() < 0.15:
+    r = rng.random()
+    if r < 0.15:
         ds = [0]
-    if in_domain:
-        e = -rng.randint(0, len(ds) + 5)
-        sign = 0
-    else:
-        e = rng.choice([rng.randint(-40, 12), -len(ds) - 6, -len(ds) - 5, 1, 0])
-        sign = rng.choice([0, 0, 1])
+    elif r < 0.35 and n > 1:
+        k = rng.randint(1, n - 1)
+        ds = ds[:n - k] + [0] * k                      # trailing zeros
+    e = rng.choice([0, -rng.randint(0, len(ds) + 5), -rng.randint(0, len(ds) + 5), rng.randint(-40, 40),
+                    -len(ds), -len(ds) - 1, -len(ds) + 1, -len(ds) - 6, -len(ds) - 7, 1, 3, 12])
+    sign = 0 if in_domain else rng.choice([0, 0, 1])
     return decimal.Decimal((sign, tuple(ds), e))
 
 
@@ -474,7 +477,7 @@ def in_domain(cls: str, v, indent: str = '') -> bool:
     if cls == 'Date': return True
     if cls == 'Number':
         t = v.as_tuple()
-        return isinstance(t.exponent, int) and t.sign == 0 and t.exponent <= 0 and t.exponent + len(t.digits) > -6
+        return isinstance(t.exponent, int) and t.sign == 0          # every finite non-negative Decimal
     if cls in ('Tag', 'Link'): return re.fullmatch(r'[A-Za-z0-9\-_/.]+', v) is not None
     if cls == 'MetaKey': return re.fullmatch(r'[a-z][a-zA-Z0-9\-_]+', v) is not None
     return True
@@ -482,7 +485,12 @@ def in_domain(cls: str, v, indent: str = '') -> bool:
 
 def same_value(cls, a, b) -> bool:
     if cls == 'Number':
-        return a == b and a.as_tuple() == b.as_tuple()
+        # Decimal equality is numeric (Decimal('1E+3') == Decimal('1000')); the representation is kept exactly
+        # whenever the exponent is not positive (C12_number_roundtrip)
+        if not (isinstance(a, decimal.Decimal) and isinstance(b, decimal.Decimal) and a == b):
+            return False
+        ta, tb = a.as_tuple(), b.as_tuple()
+        return ta == tb or ta.exponent > 0 or tb.exponent > 0
     return type(a) is type(b) and a == b
 
 
@@ -763,7 +771,9 @@ def run_all(ctx: common.Ctx):
              [('BlockComment', s) for s in SPECIAL_TEXTS if in_domain('BlockComment', s)] + \
              [('Date', datetime.date(999, 1, 2)), ('Date', datetime.date(1, 1, 1)), ('Date', datetime.date(9999, 12, 31)),
               ('Date', datetime.date(2000, 2, 29)), ('Number', decimal.Decimal('0.00')), ('Number', decimal.Decimal('0.000001')),
-              ('Number', decimal.Decimal('1.50')), ('Number', decimal.Decimal('100'))]
+              ('Number', decimal.Decimal('1.50')), ('Number', decimal.Decimal('100')), ('Number', decimal.Decimal('1E+3')),
+              ('Number', decimal.Decimal('1E-7')), ('Number', decimal.Decimal('1.2300E+2')), ('Number', decimal.Decimal('0E+5')),
+              ('Number', decimal.Decimal('0E-9')), ('Number', decimal.Decimal('1.2300E+6')), ('Number', decimal.Decimal('12E-30'))]
     for cls in VALUE_CLASSES:
         vals = [v for c, v in corpus if c == cls] + [gen_value(rng, cls) for _ in range(n)]
         for v in vals:
@@ -809,6 +819,7 @@ def run_all(ctx: common.Ctx):
     for _ in range(n):
         v = gen_number(rng, in_domain=False)
         add(18, jv('Number', v))
+        add(35, jv('Number', v))
         raw = str(v)
         if re.fullmatch(r'[0-9.,]*', raw):
             add(17, L(raw))
@@ -871,7 +882,7 @@ FN_NAME = {1: 'EscapedString.escape', 2: 'EscapedString.escape(aggressive)', 3: 
            17: 'Number._parse_value', 18: 'Number._format_value', 19: 'lex NUMBER', 20: 'Tag._parse_value',
            21: 'Tag._format_value', 22: 'lex TAG', 23: 'Link._parse_value', 24: 'Link._format_value', 25: 'lex LINK',
            26: 'MetaKey._parse_value', 27: 'MetaKey._format_value', 28: 'lex META_KEY', 29: 'Bool._parse_value',
-           30: 'Bool._format_value', 31: 'lex BOOL', 32: 'lex NULL', 33: 'Simple._parse_value',
+           30: 'Bool._format_value', 31: 'lex BOOL', 32: 'lex NULL', 33: 'Simple._parse_value', 35: 'str(Decimal) (model of the formatting as found)',
            34: 'Simple._format_value', 40: 'token assignment history'}
 
 
@@ -898,7 +909,7 @@ def shrink(ctx, impl, k, args, budget: int = 30):
                 i += 2
         return cur
     for ai in range(len(cur)):
-        if k in (15, 18, 30):
+        if k in (15, 18, 30, 35):
             break
         i = 0
         while i < len(cur[ai]) and n < budget:
@@ -916,13 +927,13 @@ def shrink(ctx, impl, k, args, budget: int = 30):
 def run(ctx: common.Ctx):
     ctx.rule = ('per token class: values of its domain (strings over an alphabet with quote, backslash, every '
                 'str.splitlines boundary, CR CR LF, astral and non-ASCII characters, plus a fixed corpus; dates with '
-                'years 1..9999 skewed below 1000; plain-notation decimals of 1..30 digits), lexemes drawn from a '
+                'years 1..9999 skewed below 1000; non-negative decimals of 1..30 digits with exponents -40..40, trailing zeros and zeros with exponent), lexemes drawn from a '
                 'grammar of each terminal and mutated lexemes, and assignment histories of 1..7 value/raw_text/indent '
                 'assignments; a case is non-trivial when it is a domain value, a text lark lexes as one token, or a '
                 'history of >= 2 assignments; distinct by (check, class, payload)')
     ctx.assumptions += [
         'CPython re on the pinned terminal patterns is an oracle: lex_K is compared with lark\'s lexer on every generated text',
-        'str(Decimal) follows the to-scientific-string rule as transcribed in Tokens.number_format (compared on generated (sign, digits, exponent))',
+        "format(Decimal, 'f') follows _pydecimal.__format__ as transcribed in Tokens.number_format, and str(Decimal) the to-scientific-string rule in Tokens.number_format_str (both compared with CPython on generated (sign, digits, exponent))",
         'Decimal(text)/int(text) are modelled on ASCII digit spellings only (what the NUMBER/DATE terminals admit)',
         'datetime.date(y, m, d) accepts exactly 1<=y<=9999 with the Gregorian month lengths; strftime("%Y") on this libc does not pad',
         'token objects: only _value/_indent/raw_text are modelled (base_token_models.py, block_comment.py); store bookkeeping is C07/C08',
